@@ -1,6 +1,6 @@
 import Log4rsModel.EnvExpand.LemmasStr
 /-
-C19: the name scanner, and the byte-offset model `expand` reduced to a fold over the occurrences of
+C19: the name scanner, and the byte-offset model `expand_unfixed` reduced to a fold over the occurrences of
 `$ENV{` on characters (`expandChars`). Every `split_at` / slice the code takes is shown to succeed.
 -/
 namespace Log4rs.EnvExpand
@@ -134,7 +134,7 @@ def stepChars (alnum : Char → Bool) (env : Env) (out tail : Text) : Text :=
     | none => out
     | some value => replaceAll (refLit name) value out
 
-/-- `expand` without byte offsets: fold over the occurrences of `$ENV{` in order of appearance -/
+/-- `expand_unfixed` without byte offsets: fold over the occurrences of `$ENV{` in order of appearance -/
 def expandChars (alnum : Char → Bool) (env : Env) (path : Text) : Text :=
   (occs path).foldl (fun out o => stepChars alnum env out o.2) path
 
@@ -144,14 +144,14 @@ theorem utf8Len_refLit (n : Text) : utf8Len (refLit n) = 5 + utf8Len n + 1 := by
   omega
 
 /-- at an occurrence `path = p ++ "$ENV{" ++ tail` every slice of the loop body succeeds -/
-theorem stepAt_eq (alnum : Char → Bool) (env : Env) (p tail out : Text) :
-    stepAt alnum env (p ++ (envPrefix ++ tail)) out (utf8Len p) = .ok (stepChars alnum env out tail) := by
+theorem stepUnfixed_eq (alnum : Char → Bool) (env : Env) (p tail out : Text) :
+    stepUnfixed alnum env (p ++ (envPrefix ++ tail)) out (utf8Len p) = .ok (stepChars alnum env out tail) := by
   have hsplit : splitAtByte (utf8Len p + ENV_PREFIX_LEN) (p ++ (envPrefix ++ tail)) =
       some (p ++ envPrefix, tail) := by
     have := splitAtByte_append (p ++ envPrefix) tail
     rw [utf8Len_append, utf8Len_envPrefix] at this
     simpa [ENV_PREFIX_LEN] using this
-  unfold stepAt stepChars
+  unfold stepUnfixed stepChars
   simp only [hsplit]
   cases hs : scanRef alnum tail with
   | none => rfl
@@ -221,9 +221,9 @@ theorem foldl_ok {α : Type} (f : Text → α → Text) (l : List α) (b : Text)
   | cons a l ih => simp only [List.foldl_cons]; exact ih _
 
 /-- the byte-offset model never takes the panic branches and equals the character-level fold -/
-theorem expand_eq_chars (alnum : Char → Bool) (env : Env) (path : Text) :
-    expand alnum env path = .ok (expandChars alnum env path) := by
-  unfold expand expandChars
+theorem expand_unfixed_eq_chars (alnum : Char → Bool) (env : Env) (path : Text) :
+    expand_unfixed alnum env path = .ok (expandChars alnum env path) := by
+  unfold expand_unfixed expandChars
   rw [matchIndices_occs, List.foldl_map, ← foldl_ok]
   apply foldl_congr_mem
   intro acc o ho
@@ -232,7 +232,7 @@ theorem expand_eq_chars (alnum : Char → Bool) (env : Env) (path : Text) :
     have := occs_sound ho
     simp only
     conv => lhs; rw [this]
-    exact stepAt_eq alnum env o.1 o.2 out
+    exact stepUnfixed_eq alnum env o.1 o.2 out
   | err e => rfl
   | panic w => rfl
 
